@@ -58,6 +58,7 @@ class Unit:
         cfg.no_inline |= self.no_inline
         cfg.ext.update(self.ext)
         cfg.unroll.update(self.unroll)
+        cfg.unwind = bool(getattr(self, 'unwind', False))   # True: going past an unroll bound is an obligation (the unit claims the bound is enough)
         return cfg
 
     def __call__(self, E):
